@@ -2,7 +2,7 @@
 C06 property theorems. Only statements of the property + non-vacuity examples live here;
 helper lemmas are in Lemmas.lean.
 -/
-import BV.C06.Model
+import BV.C06.Mono
 import BV.Generated.C06
 namespace BV.C06
 
@@ -51,5 +51,82 @@ theorem pin_sequence :
     Generated.C06.sequenceLockTimeIsSeconds = SEQUENCE_LOCKTIME_TYPE_FLAG ∧
     Generated.C06.sequenceLockTimeMask = SEQUENCE_LOCKTIME_MASK ∧
     Generated.C06.maxTxInSequenceNum = SEQUENCE_FINAL := by decide
+
+/-! ### totality: fuel = script length suffices -/
+
+/-- The evaluator is structurally recursive on its fuel (every definition of the model is a total
+function, so there is no `panic` outcome), and any fuel ≥ the script length gives the same answer: the
+fuel `script.length` used by `evalScript` is never the reason for a result. -/
+theorem eval_total (c : Ctx) (script : Bytes) (st : St) (k : Nat) :
+    evalLoop c (script.length + k) script st = evalLoop c script.length script st :=
+  Lemmas.evalLoop_fuel_irrelevant c script st k
+
+/-! ### bounds -/
+
+/-- Every successful step of the interpreter — executed or in an unexecuted branch — respects the
+bounds: the data carried by the opcode is ≤ 520 bytes, stack + altstack ≤ 1000 elements afterwards, and
+the operation count (which includes the key count of every executed CHECKMULTISIG) is ≤ 201; so a
+program that exceeds a bound fails at that step. No hypothesis on the state before the step. -/
+theorem bounds_respected {c : Ctx} {op : Nat} {d rest : Bytes} {st st' : St}
+    (h : stepOp c op d rest st = .ok st') :
+    d.length ≤ MAX_SCRIPT_ELEMENT_SIZE ∧ st'.stack.length + st'.alt.length ≤ MAX_STACK_SIZE ∧
+    st'.nOps ≤ MAX_OPS_PER_SCRIPT :=
+  Lemmas.stepOp_ok_bounds h
+
+/-- A successful `EvalScript`: the script is ≤ 10000 bytes outside tapscript, and the resulting stack has
+≤ 1000 elements unless the script is empty (then the stack is returned untouched). -/
+theorem bounds_respected_script {c : Ctx} {script : Bytes} {stack out : List Bytes} {w : Int}
+    (h : evalScript c script stack w = .ok out) :
+    ((c.sv = .base ∨ c.sv = .witnessV0) → script.length ≤ MAX_SCRIPT_SIZE) ∧
+    ((script = [] ∧ out = stack) ∨ out.length ≤ MAX_STACK_SIZE) :=
+  Lemmas.evalScript_ok h
+
+/-- Whenever a script evaluation succeeds, every IF/NOTIF has been closed: the conditional stack is empty
+at the script boundary (conditionals cannot straddle scriptSig / scriptPubKey / redeem script). -/
+theorem cond_balanced (c : Ctx) (fuel : Nat) (script : Bytes) (st st' : St)
+    (h : evalLoop c fuel script st = .ok st') : st'.cond = [] :=
+  Lemmas.evalLoop_cond_empty c fuel script st st' h
+
+/-- In a non-executing branch an opcode other than IF/NOTIF/VERIF/VERNOTIF/ELSE/ENDIF that does not make
+the script fail changes neither stack, altstack, conditional stack, script-code start, code-separator
+position nor the sigop budget: only the op count and the opcode position advance. -/
+theorem unexecuted_branch_inert {c : Ctx} {op : Nat} {d rest : Bytes} {st st' : St}
+    (hex : st.exec = false) (hop : ¬ (OP_IF ≤ op ∧ op ≤ OP_ENDIF))
+    (h : stepOp c op d rest st = .ok st') :
+    st' = { st with nOps := countOp c op st.nOps, opPos := st.opPos + 1 } :=
+  Lemmas.stepOp_unexecuted hex hop h
+
+/-- … while a disabled opcode fails there as everywhere. -/
+theorem disabled_fails_unexecuted (c : Ctx) (op : Nat) (d rest : Bytes) (st : St) (hd : isDisabled op = true) :
+    ∀ st', stepOp c op d rest st ≠ .ok st' := by
+  intro st' h
+  obtain ⟨st0, _, h0, _, _⟩ := Lemmas.stepOp_ok_iff h
+  have := (Lemmas.stepPre_ok h0).2.2.1
+  rw [hd] at this; cases this
+
+example : ∃ st : St, st.exec = false := ⟨{ stack := [], code := [], cond := [false] }, rfl⟩
+
+/-! ### minimal pushes -/
+
+/-- Under MINIMALDATA a byte string of at most 65535 bytes has at most one accepted push opcode. -/
+theorem minimal_push_unique (d : Bytes) (op op' : Nat) (hl : d.length ≤ 65535)
+    (h : checkMinimalPush op d = true) (h' : checkMinimalPush op' d = true) : op = op' :=
+  Lemmas.minimal_push_unique d op op' hl h h'
+
+example : checkMinimalPush 2 [7, 7] = true := by decide
+
+/-! ### soft-fork monotonicity -/
+
+/-- CHECKLOCKTIMEVERIFY is a soft fork: every spend that verifies with the flag verifies without it. -/
+theorem softfork_monotone_cltv (fl : Flags) (chk : Checker) (scriptSig scriptPubKey : Bytes)
+    (wit : List Bytes) (h : verifyScript { fl with cltv := true } chk scriptSig scriptPubKey wit = .ok ()) :
+    verifyScript { fl with cltv := false } chk scriptSig scriptPubKey wit = .ok () :=
+  Lemmas.verifyScript_mono Lemmas.cltv_tightening fl chk scriptSig scriptPubKey wit () h
+
+/-- CHECKSEQUENCEVERIFY is a soft fork. -/
+theorem softfork_monotone_csv (fl : Flags) (chk : Checker) (scriptSig scriptPubKey : Bytes)
+    (wit : List Bytes) (h : verifyScript { fl with csv := true } chk scriptSig scriptPubKey wit = .ok ()) :
+    verifyScript { fl with csv := false } chk scriptSig scriptPubKey wit = .ok () :=
+  Lemmas.verifyScript_mono Lemmas.csv_tightening fl chk scriptSig scriptPubKey wit () h
 
 end BV.C06
